@@ -57,6 +57,10 @@ type Unit struct {
 	Provider    func(fv *FV, call *ast.CallExpr) *CalleeSpec // synthesised contracts for special callees
 	TrustedExt  map[string]*ExtSpec // assumed contracts of external functions
 	mapKeySort  map[string]Sort
+	SpecConsts  map[string]Sort // spec-level constants (declared by the unit's prelude)
+	OpaquePreds map[string]bool // defpreds whose defining axiom is withheld in this unit
+	NoSplit     map[string]bool // preds that are not split into per-conjunct obligations
+	PanicIsExit bool            // an explicit panic ends the process (allowed) instead of being a safety violation
 	defAxioms   string
 	defAxiomsDone bool
 	OnNoReturn  func(fv *FV, cs *CalleeSpec, st *State)
@@ -222,6 +226,18 @@ func (u *Unit) indexLits(outer *FuncInfo) {
 			return true
 		}
 		for i, r := range as.Rhs {
+			if cl, ok := r.(*ast.CompositeLit); ok {
+				if id, ok := as.Lhs[i].(*ast.Ident); ok {
+					for k, el := range cl.Elts {
+						if fl, ok := el.(*ast.FuncLit); ok {
+							key := fmt.Sprintf("%s.$%s%d", outer.Name, strings.TrimPrefix(id.Name, "_"), k)
+							sig := u.Info.Types[fl].Type.(*types.Signature)
+							u.Funcs[key] = &FuncInfo{Key: key, Name: fmt.Sprintf("$%s%d", strings.TrimPrefix(id.Name, "_"), k), Lit: fl, Sig: sig, Body: fl.Body, Outer: outer, Pos: fl.Pos()}
+						}
+					}
+				}
+				continue
+			}
 			lit, ok := r.(*ast.FuncLit)
 			if !ok {
 				continue
@@ -520,7 +536,7 @@ func (u *Unit) defPredAxioms() string {
 	var sb strings.Builder
 	for _, n := range sortedKeys(u.CS.SpecFuncs) {
 		sf := u.CS.SpecFuncs[n]
-		if sf.Body == nil {
+		if sf.Body == nil || u.OpaquePreds[n] {
 			continue
 		}
 		fv := NewFV(u, &FuncInfo{Key: "defpred " + n}, nil)
